@@ -492,6 +492,14 @@ class C17(KProp):
             "look-alikes that are not white space, blanks inside, 127..129-byte names inside white space, LF / CRLF / no line end / "
             "further lines: what was written (the Name and PublicKey lines) must parse back to exactly that, be found by name, and "
             "(sampled) encrypt and decrypt under the written name; 8 of these runs compared with the CLI model (trim = str::trim); "
+            "every kr_parse case also against an independent reference reader of the format (tools/props_kvs.py::ref_parse); names that read like "
+            "another field (another entry's PublicKey / PrivateKey text listed before or after, keywords, option-looking strings): lookups by "
+            "name return exactly the section carrying the name, in process and through encrypt --to= / decrypt --to=; LARGE keyrings behind -k of "
+            "the real program (contacts + comment blocks; the key under test first, last, and with the offsets 4 KiB, 8 KiB, 64 KiB, 1 MiB "
+            "(thorough: 32 KiB, 128 KiB, 2 MiB, 4 MiB as well) falling inside its Name / PublicKey / PrivateKey value, inside a multi-byte "
+            "character, between its lines, at its start / end, at the end of the file +-1): lookups by name (present, absent, the name a reader "
+            "stopping at the offset would invent) and by key equal the reference reader's, the key under test encrypts and decrypts; the smaller "
+            "texts (quick <= 16 KiB, thorough <= 136 KiB) also through the Gallina parser; "
             "non-trivial = distinct driver lines other than the empty text")
     assumptions = ["ct-codecs base64 is specified in Spec/Base64.v and compared, not proved equal",
                    "well-formedness of key strings on acceptance is judged with Python's base64 (lenient on trailing bits)"]
@@ -998,10 +1006,19 @@ class C17(KProp):
     def explore(self, ctx):
         self.setup(ctx)
         maxlen = int(os.environ.get("VERIF_C17_MAXLEN", "7" if ctx.thorough() else "5"))
+        import props_kvs
         tok, look = self.token_cases(ctx, maxlen)
+        # every kr_parse case is also judged against an independent reference reader of the format (props_kvs.ref_parse); the same
+        # cases are compared with the Gallina parser, which ties the reference reader used for LARGE keyrings below to the model
+        for c in tok:
+            if c.op == "kr_parse":
+                c.expect_fn = props_kvs.ref_oracle_on_case(c)
         self.run_kcases(ctx, tok, prelude=self.prelude(), tag="C17t")
         rest = look + self.random_cases(ctx, 4000 if ctx.thorough() else 500) + self.pk_cases(ctx) \
             + self.writeback_cases(ctx, 300 if ctx.thorough() else 60)
+        for c in rest:
+            if c.op == "kr_parse":
+                c.expect_fn = props_kvs.ref_oracle_on_case(c)
         # lookups on accepted random texts
         self.run_kcases(ctx, rest, tag="C17r")
         acc = [c for c in rest if c.op == "kr_parse" and c.result["code"] == 0 and "random-text" in c.tags]
@@ -1011,6 +1028,9 @@ class C17(KProp):
             es = c.result["entries"]
             more += self.lookup_cases(c.a["text"], es, [es[0][0], es[-1][0] + b"x"], [es[-1][1]] + [p for p in (self.K["P1"], self.K["P2"], self.K["P3"]) if all(e[1] != p for e in es)][:1])
         self.run_kcases(ctx, more, tag="C17l")
+        # names that read like another field of the file; keyrings larger than any reader's buffer, behind -k of the real program
+        props_kvs.c17_name_family(self, ctx)
+        props_kvs.c17_large(self, ctx)
         self.prompt_writeback(ctx)
         ctx.search_note = "direct oracle over all %d cases" % ctx.evaluations
 
@@ -2404,6 +2424,10 @@ class C14(ProcProp):
             "blanks around heads / keys / values and inside a name; the answer delivered through a pipe in one write, in two or "
             "three writes cut anywhere (also inside a UTF-8 sequence), one byte per write, without a line end, with CRLF, "
             "followed by further lines in the same or a later write (the feeder waits for the prompt, then writes); "
+            "LARGE keyrings (one own key, contacts, comment blocks) sized so that the offsets 4 KiB, 8 KiB, 64 KiB, 1 MiB (thorough up to 4 MiB) "
+            "fall inside the Name / PublicKey / PrivateKey value of the first, second or third generated block, between its lines, right "
+            "before / behind it, or lie wholly before the generated keys: same judgement, then EVERY key of the file (the old one and each "
+            "generated one) encrypts to itself and decrypts through -k F (tools/props_kvs.py::c14_big); "
             "non-trivial = every run")
     assumptions = ["the histories are judged by direct oracles; in addition every step of 4 (thorough 6) short histories is compared with the CLI "
                    "model (Model/CliGlue.v::real_cli_main with the injected random stream), each step started from the real file of the previous one"]
@@ -2452,11 +2476,15 @@ class C14(ProcProp):
         try:
             recs = self.pmap(lambda pl: self.one_history(w, pl), plans)
             self.judge_all(ctx, recs)
+            # keyrings of 4 KiB .. 1 MiB (thorough 4 MiB): the generated keys land before, across and behind each power-of-two offset;
+            # every key of the file is then used through -k F
+            import props_kvs
+            nbig = props_kvs.c14_big(self, ctx, w, max(pl["h"] for pl in plans) + 1)
             ctx.evaluations += w.nruns
             self.count(ctx, "proc:runs", w.nruns)
         finally:
             w.close()
-        ctx.search_note = "direct oracle over %d histories" % len(plans)
+        ctx.search_note = "direct oracle over %d histories" % (len(plans) + nbig)
         # every generation step against the CLI model, started from the real file of the previous step
         model_cli_part(ctx, c14_model_cases)
 
